@@ -56,22 +56,6 @@ def _skip_kind(t, var):
   return None
 
 
-def _whole_copy_of(fn, e, rows_var, depth=0):
-  """True when e denotes all of `rows_var` (through set()/list()/sorted() copies and single-def
-  locals); False when it is a part of it (subscript, filtered comprehension); AnalysisError for
-  any other shape."""
-  e = H.strip_wrappers(e, ("set", "frozenset", "list", "tuple", "sorted"))
-  if isinstance(e, ast.Name):
-    if e.id == rows_var:
-      return True
-    d = H.single_def(fn, e.id)
-    if d is not None and depth < 4:
-      return _whole_copy_of(fn, d, rows_var, depth + 1)
-  if isinstance(e, (ast.Subscript, ast.ListComp, ast.SetComp, ast.GeneratorExp, ast.BinOp)):
-    return False
-  raise AnalysisError("doBulkRemoveRecord: cannot relate %s to the removed rows" % short(e))
-
-
 def r2_cleanup_loop(run, w):
   R2 = run.rule("C10-R2", "doBulkRemoveRecord: the clean-up loop post-dominates the removal, "
                 "covers the whole _back_references of the same table, skips only formula / "
@@ -79,26 +63,32 @@ def r2_cleanup_loop(run, w):
   fn = w.fn("useractions.UserActions.doBulkRemoveRecord")
   cfg = fn.cfg
   du = DefUse(fn)
+  rd = H.ReachDefs(fn, du)
+  ENTRY = H.ReachDefs.ENTRY
   names = w.action_types()
   ps = fn.fi.params()
+  p_table = ps[1]
+  is_own_table = lambda e, at: isinstance(H.deref(fn, e), ast.Name) and \
+      H.deref(fn, e).id == p_table and rd.reaching(p_table, at) == {ENTRY}
   rem = []
   for (n, c) in H.gateway_sites(fn):
-    r = E.action_ctor(c.args[0], names)
+    r = E.action_ctor(H.deref(fn, c.args[0]), names)
     if r and r[0] in ("BulkRemoveRecord", "RemoveRecord"):
-      rem.append((n, r[1]))
+      rem.append((n, r[0], r[1]))
   if len(rem) != 1:
     raise AnalysisError("doBulkRemoveRecord: expected exactly one gateway call with a removal")
-  rn, rctor = rem[0]
-  ok = len(rctor.args) == 2 and isinstance(rctor.args[0], ast.Name) and rctor.args[0].id == ps[1] \
-      and H.unrebound_at(fn, du, ps[1], rn.id) and isinstance(rctor.args[1], ast.Name)
+  rn, rkind, rctor = rem[0]
+  a_table, a_rows = H.action_arg(rctor, names, rkind, 0), H.action_arg(rctor, names, rkind, 1)
+  ok = H.action_nargs(rctor) == 2 and a_table is not None and is_own_table(a_table, rn.id) and \
+      isinstance(a_rows, ast.Name)
   run.ob(R2, fn.qualname, short(rctor), "the removal names the table it was asked for", ok,
          fi=fn.fi, node=rctor)
-  rows_var = rctor.args[1].id if len(rctor.args) == 2 and isinstance(rctor.args[1], ast.Name) \
-      else None
+  rows_var = a_rows.id if isinstance(a_rows, ast.Name) else None
+  rows_defs = rd.reaching(rows_var, rn.id) if rows_var else set()
   # the loop over <table>._back_references
   def backrefs_iter(e):
     """(attribute node, whole?) when e iterates some <x>._back_references, else None."""
-    e = H.strip_wrappers(e)
+    e = H.strip_wrappers(H.deref(fn, e))
     if isinstance(e, ast.Attribute) and e.attr == "_back_references":
       return (e, True)
     if isinstance(e, (ast.GeneratorExp, ast.ListComp, ast.SetComp)) and len(e.generators) == 1:
@@ -131,12 +121,15 @@ def r2_cleanup_loop(run, w):
   if not isinstance(lp.stmt.target, ast.Name):
     raise AnalysisError("doBulkRemoveRecord: clean-up loop target is not a simple name")
   var = lp.stmt.target.id
-  tdef = H.single_def(fn, it.value.id) if isinstance(it.value, ast.Name) else None
-  tnodes = {n.id for n in cfg.nodes if n.kind == "stmt" and isinstance(n.stmt, ast.Assign) and
-            n.stmt.value is tdef}
-  ok = isinstance(tdef, ast.Subscript) and fn.type_of(tdef.value) == "dict[table.Table]" and \
-      isinstance(tdef.slice, ast.Name) and tdef.slice.id == ps[1] and \
-      all(H.unrebound_at(fn, du, ps[1], t) for t in tnodes) and bool(tnodes) and whole
+  # the table whose back references are walked is <engine>.tables[<table_id as passed in>]
+  tbl = it.value
+  tdefs = rd.reaching(tbl.id, lp.id) if isinstance(tbl, ast.Name) else set()
+  tvals = [(H.def_value(cfg, d), d) for d in tdefs] if tdefs else [(tbl, lp.id)]
+  ok = bool(tvals) and whole
+  for (tv, at) in tvals:
+    tv = H.deref(fn, tv) if tv is not None else None
+    ok = ok and isinstance(tv, ast.Subscript) and fn.type_of(tv.value) == "dict[table.Table]" and \
+        is_own_table(tv.slice, at)
   run.ob(R2, fn.qualname, "for %s in %s" % (var, short(lp.stmt.iter)),
          "the loop covers every column registered as referring to the table the rows are removed "
          "from (whole set, no filter, no slice)", ok, fi=fn.fi, node=lp.stmt)
@@ -145,21 +138,6 @@ def r2_cleanup_loop(run, w):
          cfg.postdominated_by(rn.id, {lp.id}), fi=fn.fi, node=lp.stmt,
          witness=cfg.describe_path(cfg.path(rn.id, {cfg.exit.id}, removed={lp.id}, after=True)))
   body = H.nodes_of_stmts(cfg, H.stmts_under(lp.stmt.body))
-  # skips: continue / break / return inside the loop only under the enumerated conditions
-  for n in cfg.nodes:
-    if n.id in body and n.kind in ("continue", "break", "return", "raise_stmt"):
-      chain = [(s, fld) for (s, fld) in H.guards_of(fn.node, n.stmt)]
-      inner = chain[[i for i, (s, f) in enumerate(chain) if s is lp.stmt][0] + 1:]
-      ok = n.kind == "continue" and len(inner) == 1 and isinstance(inner[0][0], ast.If) and \
-          inner[0][1] == "body"
-      if ok:
-        t = inner[0][0].test
-        parts = t.values if isinstance(t, ast.BoolOp) and isinstance(t.op, ast.Or) else [t]
-        ok = all(_skip_kind(p, var) in SKIP_TESTS for p in parts)
-      run.ob(R2, fn.qualname, "%s under `%s`" % (n.kind, short(inner[-1][0].test) if inner and
-                                                  isinstance(inner[-1][0], ast.If) else "?"),
-             "a referring column is skipped only when it is a formula column or not a reference "
-             "column", ok, fi=fn.fi, node=n.stmt)
   # the updates asked for are those for the removed rows
   ups = [(n, c) for (n, c, nm) in fn.calls() if isinstance(c.func, ast.Attribute) and
          c.func.attr == "get_updates_for_removed_target_rows" and n.id in body]
@@ -167,68 +145,109 @@ def r2_cleanup_loop(run, w):
     raise AnalysisError("doBulkRemoveRecord: get_updates_for_removed_target_rows call not found")
   un, uc = ups[0]
   uvar = un.stmt.targets[0].id if isinstance(un.stmt, ast.Assign) and \
-      isinstance(un.stmt.targets[0], ast.Name) else None
-  ok = isinstance(uc.func.value, ast.Name) and uc.func.value.id == var and len(uc.args) == 1 and \
-      rows_var is not None and uvar is not None and _whole_copy_of(fn, uc.args[0], rows_var)
+      len(un.stmt.targets) == 1 and isinstance(un.stmt.targets[0], ast.Name) and \
+      un.stmt.value is uc else None
+  if uvar is None:
+    raise AnalysisError("doBulkRemoveRecord: the reported updates are not bound to a local")
+  same_rows = lambda x, d: isinstance(x, str) and x == rows_var and d in rows_defs
+  asked = H.whole_of(fn, rd, uc.args[0], un.id, same_rows,
+                     wrappers=("set", "frozenset", "list", "tuple", "sorted")) \
+      if len(uc.args) == 1 and not uc.keywords and rows_var else False
+  if asked is None:
+    raise AnalysisError("doBulkRemoveRecord: cannot relate %s to the removed rows"
+                        % short(uc.args[0]))
+  recv = H.deref(fn, uc.func.value)
+  ok = isinstance(recv, ast.Name) and recv.id == var and asked
   run.ob(R2, fn.qualname, short(un.stmt), "each referring column is asked for its updates for "
          "exactly the rows handed to the removal", ok, fi=fn.fi, node=un.stmt)
-  # every path round the loop that was not skipped asks for the updates
+  # skips: a column that is a data column and a reference column is always asked. Whatever else
+  # is tested on the way (in whatever spelling: continue guards, nested ifs) leaves both branches
+  # open, so an extra skip condition shows up as a path round the loop that avoids the question.
+  def keeps(e):
+    if isinstance(e, ast.Call) and isinstance(e.func, ast.Attribute) and \
+        e.func.attr == "is_formula" and not e.args and \
+        isinstance(H.deref(fn, e.func.value), ast.Name) and H.deref(fn, e.func.value).id == var:
+      return False
+    if isinstance(e, ast.Call) and dotted(e.func) == "isinstance" and len(e.args) == 2 and \
+        isinstance(H.deref(fn, e.args[0]), ast.Name) and H.deref(fn, e.args[0]).id == var and \
+        endswith(dotted(e.args[1]), "BaseReferenceColumn"):
+      return True
+    if isinstance(e, ast.Name):
+      v = H.alias_value(fn, e.id, pure_only=False)
+      if v is not None:
+        return H.eval3(v, keeps)
+    return None
   first = H.nodes_of_stmts(cfg, lp.stmt.body[:1])
-  conts = {n.id for n in cfg.nodes if n.id in body and n.kind == "continue"}
-  ok = lp.id not in cfg.reach(first, removed={un.id} | conts)
-  run.ob(R2, fn.qualname, "loop body -> get_updates_for_removed_target_rows",
-         "a column that is not skipped is always asked", ok, fi=fn.fi, node=lp.stmt)
+  stops = {lp.id, cfg.exit.id}
+  leak = H.reach_assuming(cfg, first, keeps, removed={un.id}) & stops
+  wit = None
+  if leak:
+    wit = cfg.describe_path(cfg.path(next(iter(first)), stops, removed={un.id}))
+  run.ob(R2, fn.qualname, "loop body -> get_updates_for_removed_target_rows unless "
+         "%s.is_formula() or not isinstance(%s, BaseReferenceColumn)" % (var, var),
+         "a referring column is skipped only when it is a formula column or not a reference "
+         "column; every other column is asked", not leak, witness=wit, fi=fn.fi, node=lp.stmt)
   # non-empty updates are emitted on every branch
-  guards = [n for n in cfg.nodes if n.id in body and n.kind == "if" and uvar is not None and
-            text(n.stmt.test) == uvar]
+  is_updates = lambda x: isinstance(x, ast.Name) and x.id == uvar
   emit = set()
   for (n, c, nm) in fn.calls():
     if n.id not in body:
       continue
-    hit = False
-    if nm == "self._BulkUpdateRecord_decoded" and len(c.args) == 3:
-      hit = True
-      targs = c.args
-    elif E.is_strict_gateway_call(c, nm, fn):
-      r = E.action_ctor(c.args[0], names)
-      if r and r[0] == "BulkUpdateRecord" and len(r[1].args) == 3:
-        hit = True
-        targs = r[1].args
-    if hit and all(du.flows_from(lambda x: isinstance(x, ast.Name) and x.id == uvar, a)
-                   for a in targs[1:]) and \
+    targs = None
+    if nm == "self._BulkUpdateRecord_decoded" and len(c.args) + len(c.keywords) == 3:
+      hfi = w.repo.func("useractions.UserActions._BulkUpdateRecord_decoded")
+      try:
+        targs = [H.arg_of(c, hfi, p) for p in hfi.params()[1:4]]
+      except AnalysisError:
+        targs = None
+    elif E.is_strict_gateway_call(c, nm, fn) and c.args:
+      r = E.action_ctor(H.deref(fn, c.args[0]), names)
+      if r and r[0] == "BulkUpdateRecord" and H.action_nargs(r[1]) == 3:
+        targs = [H.action_arg(r[1], names, r[0], i) for i in range(3)]
+    if targs and all(a is not None for a in targs) and \
+        all(du.flows_from(is_updates, a) for a in targs[1:]) and \
         du.flows_from(lambda x: isinstance(x, ast.Attribute) and x.attr == "table_id" and
-                      text(x.value) == var, targs[0]):
+                      isinstance(H.deref(fn, x.value), ast.Name) and
+                      H.deref(fn, x.value).id == var, targs[0]):
       emit.add(n.id)
-  ok = len(guards) == 1 and bool(emit)
+  truthy = lambda e: True if is_updates(e) else None
+  after_q = set(cfg.normal_succ(un.id))
+  leak = H.reach_assuming(cfg, after_q, truthy, removed=emit) & stops
+  # ... and nothing but their emptiness decides (assuming nothing, the only way past the emission
+  # is through a test of the updates themselves)
+  from ..guards import establishing_edges
+  empty_edges = establishing_edges(cfg, is_updates, False)
+  leak2 = H._reach_cut_edges(cfg, after_q, empty_edges, removed=emit) & stops
+  ok = bool(emit) and not leak and not leak2
   wit = None
-  if ok:
-    g = guards[0]
-    gfirst = H.nodes_of_stmts(cfg, g.stmt.body[:1])
-    leak = lp.id in cfg.reach(gfirst, removed=emit)
-    ok = not leak and not g.stmt.orelse and cfg.dominated_by(g.id, {un.id})
-    if leak:
-      wit = cfg.describe_path(cfg.path(next(iter(gfirst)), {lp.id}, removed=emit))
+  if emit and (leak or leak2):
+    wit = cfg.describe_path(cfg.path(un.id, stops, removed=emit, after=True))
   run.ob(R2, fn.qualname, "if updates: emit BulkUpdateRecord(ref_col.table_id, rows, values)",
          "whenever a column reports updates they are emitted (rows and values taken from the "
          "report, table from the column) on every branch", ok, witness=wit, fi=fn.fi)
   # the column side: every row the reverse index reports gets an update
   gu = w.fn("column.BaseReferenceColumn.get_updates_for_removed_target_rows")
   gdu = DefUse(gu)
+  grd = H.ReachDefs(gu, gdu)
   p = gu.fi.params()[1]
-  rets = [s for s in ast.walk(gu.node) if isinstance(s, ast.Return)]
+  rets = H.return_values(gu, gdu, grd)
   ok = False
-  if len(rets) == 1 and isinstance(rets[0].value, ast.ListComp) and \
-      len(rets[0].value.generators) == 1:
-    g = rets[0].value.generators[0]
-    elt = rets[0].value.elt
+  if len(rets) == 1 and isinstance(rets[0][1], ast.ListComp) and \
+      len(rets[0][1].generators) == 1:
+    g = rets[0][1].generators[0]
+    elt = rets[0][1].elt
     src = H.strip_wrappers(g.iter)
     from_index = gdu.flows_from(
       lambda x: isinstance(x, ast.Call) and endswith(gu.name(x), "self._relation.get_affected_rows")
-      and len(x.args) == 1 and text(x.args[0]) == p, src)
-    ok = not g.ifs and from_index and isinstance(elt, ast.Tuple) and len(elt.elts) == 2 and \
+      and len(x.args) == 1 and H.canon(gu, x.args[0]) == p, src)
+    filtered = isinstance(src, (ast.ListComp, ast.GeneratorExp, ast.SetComp, ast.Subscript))
+    ok = not g.ifs and from_index and not filtered and isinstance(elt, ast.Tuple) and \
+        len(elt.elts) == 2 and \
         text(elt.elts[0]) == text(g.target) and isinstance(elt.elts[1], ast.Call) and \
         gu.name(elt.elts[1]) == "self._raw_get_without" and \
-        [text(a) for a in elt.elts[1].args] == [text(g.target), p]
+        [H.canon(gu, a) for a in elt.elts[1].args] == [text(g.target), p]
+  elif not (len(rets) == 1 and rets[0][1] is not None):
+    raise AnalysisError("get_updates_for_removed_target_rows: returned value not recognised")
   run.ob(R2, gu.qualname, "[(row, self._raw_get_without(row, removed)) for row in "
          "self._relation.get_affected_rows(removed)]", "one update per row the reverse index "
          "reports for the removed targets, none filtered out", ok, fi=gu.fi)
@@ -257,30 +276,32 @@ def r3_registration(run, w):
     sites = [(n, c) for (n, c, nm) in fn.calls()
              if nm in ["self._target_table._back_references." + m for m in meths] and
              len(c.args) == 1 and text(c.args[0]) == "self"]
-    ok = len(sites) == 1
+    ok = len(sites) >= 1
     wit = None
     if ok:
-      n, c = sites[0]
-      chain = H.guards_of(fn.node, n.stmt)
-      ok = len(chain) == 1 and isinstance(chain[0][0], ast.If) and chain[0][1] == "body" and \
-          text(chain[0][0].test) == "self._target_table"
-      if ok:
-        g = H.nodes_of_stmts(cfg, [chain[0][0]])
-        ok = cfg.dominated_by(cfg.exit.id, g)
-      else:
-        wit = "guards: %s" % [short(s.test) if isinstance(s, ast.If) else s.__class__.__name__
-                              for (s, f) in chain]
+      # with a target table, no path through the function avoids the call; any other condition
+      # on the way leaves both of its branches open
+      has_target = lambda e: True if H.canon(fn, e) == "self._target_table" else None
+      S = {n.id for (n, c) in sites}
+      rebinds = {n.id for n in cfg.nodes if n.kind == "stmt" and isinstance(n.stmt, ast.Assign) and
+                 any(text(t) == "self._target_table" for t in n.stmt.targets)}
+      late = [r for r in rebinds if S & cfg.reach_after({r}) and q.endswith("destroy")]
+      leak = cfg.exit.id in H.reach_assuming(cfg, {cfg.entry.id}, has_target, removed=S)
+      ok = not leak and not late
+      if leak:
+        wit = cfg.describe_path(cfg.path(cfg.entry.id, {cfg.exit.id}, removed=S))
     run.ob(R3, q, "if self._target_table: self._target_table._back_references.%s(self)" % meths[0],
            "the column %s with its target table on every normal path (the only exemption being "
            "a target table that does not exist)" % what, ok, witness=wit, fi=fn.fi)
   init = w.fn("column.BaseReferenceColumn.__init__")
   d = [s.value for s in ast.walk(init.node) if isinstance(s, ast.Assign) and
        text(s.targets[0]) == "self._target_table"]
-  tid = [s.value for s in ast.walk(init.node) if isinstance(s, ast.Assign) and
-         isinstance(s.targets[0], ast.Name) and d and isinstance(d[0], ast.Call) and d[0].args and
-         text(s.targets[0]) == text(d[0].args[0])]
-  ok = len(d) == 1 and isinstance(d[0], ast.Call) and endswith(dotted(d[0].func), "tables.get") \
-      and len(tid) == 1 and text(tid[0]) == "self.type_obj.table_id"
+  d = [H.deref(init, x) for x in d]
+  ok = len(d) == 1 and isinstance(d[0], ast.Call) and d[0].args and \
+      (endswith(init.name(d[0]), "tables.get") or
+       (isinstance(d[0].func, ast.Attribute) and d[0].func.attr == "get" and
+        init.type_of(d[0].func.value) == "dict[table.Table]")) and \
+      H.canon(init, d[0].args[0]) == "self.type_obj.table_id"
   run.ob(R3, init.qualname, "self._target_table = <engine>.tables.get(self.type_obj.table_id, None)",
          "the table registered with is the table the column's type refers to", ok, fi=init.fi)
   rel = [s.value for s in ast.walk(init.node) if isinstance(s, ast.Assign) and
